@@ -33,6 +33,8 @@ Definition set_skip_ref (s : eref) (s_extraFrames : Z) (extraFrames : Z) : Z := 
 Definition with_skip_ref (s : eref) (s_extraFrames : Z) (extraFrames : Z) : eref * Z := (s, extraFrames).
 (* the name of the child WithSkip(n) asks for: c/<name>[<n>] *)
 Definition skip_child_name (name : bytes) (n : Z) : bytes := [x63; x2f] ++ name ++ [x5b] ++ dec_of_Z n ++ [x5d].
-Definition with_skip_child_ref (f_newChild : bytes -> eref) (f_withSkip : eref -> Z -> eref) (s_name : bytes) (s_extraFrames : Z)
-  (extraFrames : Z) : eref :=
+Definition with_skip_child_ref (f_newChild : bytes -> eref) (f_withSkip : eref -> Z -> eref)
+  (set_useJSON set_useColor : eref -> bool -> eref) (set_level set_extraFrames : eref -> Z -> eref)
+  (s_name : bytes) (s_extraFrames s_level : Z) (s_useJSON s_useColor : bool)
+  (s_items : gomapB eref) (extraFrames : Z) : eref :=
   f_withSkip (f_newChild (skip_child_name s_name extraFrames)) extraFrames.
